@@ -35,6 +35,10 @@ func (d *Dispatcher) InitGenesis(ctx context.Context, g *dispatchertypes.Genesis
 		return core.ErrNilPointer.Wrap("dispatcher genesis")
 	}
 
+	if err := g.Validate(); err != nil {
+		return errorsmod.Wrap(err, "invalid dispatcher genesis state")
+	}
+
 	for _, a := range g.DispatchedAmounts {
 		if err := d.SetDispatchedAmount(ctx, a.SourceId, a.DestinationId, a.Denom, a.AmountDispatched); err != nil {
 			return errorsmod.Wrap(
